@@ -593,7 +593,31 @@ func (w *World) rulesLen(out *[]Obligation) {
 			}
 		}
 		if undec {
-			continue
+			// outside the statement language: interpret the sizing function
+			// symbolically and take the coupling of metrics from its linear form
+			_, sets, err := p.sizingLinear(lfd)
+			if err != nil {
+				add(false, "R17.len", "lenVec.model", lfd, "the sizing function could not be interpreted symbolically either: "+err.Error()+posSuffix(p, err))
+				continue
+			}
+			// drop the syntactic complaints, rebuild the partition
+			kept := (*out)[:0]
+			for _, o := range *out {
+				if o.Rule == "R17.len" && !o.OK && strings.HasPrefix(o.Instance, k+".lenVec") && strings.Contains(o.Detail, "outside the sizing language") {
+					continue
+				}
+				kept = append(kept, o)
+			}
+			*out = kept
+			uf = map[string]string{}
+			for _, ms := range sets {
+				d := map[string]bool{}
+				for _, m := range ms {
+					d[m] = true
+				}
+				union(d)
+			}
+			add(true, "R17.len", "lenVec.model", lfd, fmt.Sprintf("sizing function interpreted symbolically: a sum of %d conditional terms; the metrics each condition tests give the independent components", len(sets)))
 		}
 		// Vector's group conditions couple metrics too
 		for gi := range em.Groups {
@@ -609,9 +633,56 @@ func (w *World) rulesLen(out *[]Obligation) {
 			union(d)
 		}
 		comps := map[string][]string{}
-		for _, m := range sm.Metrics {
-			r := find(m.Label)
-			comps[r] = append(comps[r], m.Label)
+		build := func() int {
+			comps = map[string][]string{}
+			for _, m := range sm.Metrics {
+				r := find(m.Label)
+				comps[r] = append(comps[r], m.Label)
+			}
+			worst := 0
+			for _, ms := range comps {
+				size := 1
+				for _, m := range ms {
+					size *= len(sm.ByLabel[m].List)
+					if size > 1<<30 {
+						break
+					}
+				}
+				if size > worst {
+					worst = size
+				}
+			}
+			return worst
+		}
+		if build() > 200000 {
+			// the statement-level dependencies couple too many metrics (e.g. whole bytes are
+			// counted at once): take the coupling from the symbolic linear form instead
+			if _, sets, err := p.sizingLinear(lfd); err == nil {
+				uf = map[string]string{}
+				for _, ms := range sets {
+					d := map[string]bool{}
+					for _, m := range ms {
+						d[m] = true
+					}
+					union(d)
+				}
+				for gi := range em.Groups {
+					d := map[string]bool{}
+					for _, e := range em.Entries {
+						if e.Group == gi {
+							d[e.Label] = true
+						}
+					}
+					for _, l := range em.Groups[gi].CondLabels {
+						d[l] = true
+					}
+					union(d)
+				}
+				build()
+				add(true, "R17.len", "lenVec.model", lfd, fmt.Sprintf("sizing function interpreted symbolically: a sum of %d conditional terms; the metrics each condition tests give the independent components", len(sets)))
+			} else {
+				w.Extra["lenvec_linear_"+k] = "not applicable: " + err.Error() + posSuffix(p, err)
+			}
 		}
 		// F: lenVec concretely; G: emitted length from the emission model + Get tables
 		F := func(codes map[string]int) (int64, error) {
